@@ -385,6 +385,7 @@ func OpenNode(g *Genesis, dbs map[string]dbm.DB, o NodeOpts) (*Node, error) {
 	n.EvPool = evidence.NewEvidencePool(dbs["consensus_state"], n.EvStore, status.Copy())
 	types.BlacklistInstance.Init(dbs["evidence"])
 	n.UtxoStore = utxo.NewUtxoStore(dbs["utxo"], dbs["utxo_output"], dbs["utxo_output_token"])
+	n.UtxoStore.SetLogger(log.NewNopLogger()) // node.NewNode sets one; the store's error paths log through it
 	n.App, err = app.NewLinkApplication(dbs["state"], n.BlockStore, n.UtxoStore, n.CrossState, n.EventBus, true, n.BRS, app.SetPoceeds, app.AllocAward)
 	if err != nil {
 		return nil, err
